@@ -18,9 +18,13 @@ Record pops (T : Type) : Type := mk_pops {
   pzero : T; pone : T;
   pdeg : T -> Z;
   pdiv : T -> T -> T;
-  pmaxpy : T -> T -> T -> T
+  pmaxpy : T -> T -> T -> T;
+  pgcddeg : T -> T -> Z;          (* degree(degG, gcd(G,N,D)) *)
+  pleadone : T -> bool;           (* _domain.isOne(leadcoef(D)) *)
+  pdivlead : T -> T -> T          (* pdivlead D X = X divided by leadcoef(D)   (divin(X, r)) *)
 }.
 Arguments pzero {T}. Arguments pone {T}. Arguments pdeg {T}. Arguments pdiv {T}. Arguments pmaxpy {T}.
+Arguments pgcddeg {T}. Arguments pleadone {T}. Arguments pdivlead {T}.
 
 Section Generic.
   Context {T : Type} (Ops : pops T).
@@ -59,6 +63,20 @@ Section Generic.
 
   Definition pfuel (P M : T) : nat := Z.to_nat (pdeg Ops P + pdeg Ops M + 4).
   Definition pratrecon (P M : T) (dk : Z) : option (bool * T * T) := pratrecon_fuel (pfuel P M) P M dk.
+
+  (* lines 90-107: ratreconcheck *)
+  Definition pratreconcheck_g (P M : T) (dk : Z) : option (bool * T * T) :=
+    match pratrecon P M dk with
+    | None => None
+    | Some (pass, N, D) =>
+      if pgcddeg Ops N D >? 0 then Some (false, N, D)
+      else if pleadone Ops D then Some (pass, N, D)
+      else Some (pass, pdivlead Ops D N, pdivlead Ops D D)      (* divin(D,r); divin(N,r) with r = leadcoef(D) *)
+    end.
+
+  (* lines 109-115 *)
+  Definition pratrecon6_g (P M : T) (dk : Z) (forcereduce : bool) : option (bool * T * T) :=
+    if forcereduce then pratreconcheck_g P M dk else pratrecon P M dk.
 End Generic.
 
 (* ------------------------------------------------------------------ dense polynomials over Z/p *)
@@ -123,8 +141,6 @@ Section Zp.
   Definition pmxpy (R Q B : poly) : poly := psub R (pmul Q B).
   Definition prem (A B : poly) : poly := pmxpy (norm A) (pquo A B) (norm B).
 
-  Definition ZpOps : pops poly := mk_pops poly [] [1 mod p] deg pquo pmxpy.
-
   (* degree of gcd(A,B) as Poly1Dom::gcd followed by degree() gives it (Euclid; gcd(0,B) = B) *)
   Fixpoint gcd_loop (fuel : nat) (A B : poly) : poly :=
     match fuel with
@@ -135,19 +151,11 @@ Section Zp.
     let A := norm A in let B := norm B in
     deg (gcd_loop (length A + length B + 2) A B).
 
-  (* lines 90-107: ratreconcheck *)
-  Definition pratreconcheck (P M : poly) (dk : Z) : option (bool * poly * poly) :=
-    match pratrecon ZpOps (norm P) (norm M) dk with
-    | None => None
-    | Some (pass, N, D) =>
-      if pgcd_deg N D >? 0 then Some (false, N, D)
-      else
-        let r := lead D in
-        if r =? 1 then Some (pass, N, D)
-        else let ri := cinv r in Some (pass, pscale ri N, pscale ri D)   (* divin(D,r); divin(N,r) *)
-    end.
+  Definition ZpOps : pops poly :=
+    mk_pops poly [] [1 mod p] deg pquo pmxpy pgcd_deg (fun D => lead D =? 1) (fun D X => pscale (cinv (lead D)) X).
 
-  (* lines 109-115 *)
+  Definition pratreconcheck (P M : poly) (dk : Z) : option (bool * poly * poly) :=
+    pratreconcheck_g ZpOps (norm P) (norm M) dk.
   Definition pratrecon6 (P M : poly) (dk : Z) (forcereduce : bool) : option (bool * poly * poly) :=
-    if forcereduce then pratreconcheck P M dk else pratrecon ZpOps (norm P) (norm M) dk.
+    pratrecon6_g ZpOps (norm P) (norm M) dk forcereduce.
 End Zp.
